@@ -112,11 +112,17 @@ def pushZerosFront (b : Buf) (n : Nat) : M Buf :=
     pure { b with ws := List.replicate n 0 ++ b.ws }
   else assertFail "buffer.rs:261 assert"
 
+/-- reads of the first `k` words of a borrowed source slice, if it lives in one of our allocations -/
+def srcReads (src : Option Nat) (k : Nat) : List Event :=
+  match src with
+  | some s => rd s 0 k
+  | none => []
+
 /-- `Buffer::push_slice` — unsafe block buffer.rs:293 (`copy_nonoverlapping(src, ptr.add(len), n)`).
     `src` = id of the allocation the source slice lives in, if it is one of ours. -/
 def pushSlice (b : Buf) (src : Option Nat) (ws : List Nat) : M Buf :=
   if ws.length ≤ b.cap - b.len then do
-    emits ((match src with | some s => rd s 0 ws.length | none => []) ++ wr b.id b.len ws.length)
+    emits (srcReads src ws.length ++ wr b.id b.len ws.length)
     pure { b with ws := b.ws ++ ws }
   else assertFail "buffer.rs:288 assert"
 
@@ -180,7 +186,7 @@ def fromSlice (mx : Nat) (src : Option Nat) (ws : List Nat) : M Buf := do
     `*self = Self::from(src)`: the new buffer is built first, then the old one is dropped -/
 def cloneFromSlice (mx : Nat) (b : Buf) (src : Option Nat) (ws : List Nat) : M Buf :=
   if b.cap ≥ ws.length then do
-    emits ((match src with | some s => rd s 0 ws.length | none => []) ++ wr b.id 0 ws.length)
+    emits (srcReads src ws.length ++ wr b.id 0 ws.length)
     pure { b with ws := ws }
   else do
     let nb ← fromSlice mx src ws
